@@ -123,6 +123,49 @@ def gfapy_paths(r):
     return [[(se.name, se.end_type) for se in p] for p in r]
 
 
+def merge_one_reversed(ctx, g, path, inplace, recs, version, lines):
+    fwd = [(se.name, se.end_type) for se in path]
+    if inplace:
+        r = call(ctx, "path.reverse()", path.reverse)
+        rev = path
+    else:
+        r = call(ctx, "reversed(path)", lambda: type(path)(reversed(path)))
+        rev = r.value if r.ok else None
+    ctx.count("single_paths_reversed_then_merged")
+    if not r.ok:
+        ctx.violation("reverse-raises/%s" % r.cls(), "%r: %s" % (fwd, str(r.exc)[:200]))
+        return
+    got = [(se.name, se.end_type) for se in rev]
+    want = CH.reversed_chain(fwd)
+    if got != want:
+        ctx.violation("reversed-path-differs/%s" % ("in-place" if inplace else "reversed()"),
+                      "path %r reversed: gfapy %r, expected %r" % (fwd, got, want))
+        return
+    m = call(ctx, "merge_linear_path", g.merge_linear_path, rev)
+    if not m.ok:
+        ctx.violation("gfa1/merge-raises/%s/single-reversed-path" % m.cls(), "path %r of %r: %s" % (got, lines, str(m.exc)[:300]))
+        return
+    for key, detail in invariants.closed_symmetric(g):
+        ctx.violation("after-merge/closed-symmetric/" + key, "%s\n document %r" % (detail, lines))
+        return
+    after = [O.safe_str(l) for l in g.lines]
+    ainfo = CH.seg_info([S.parse_line(l, version) for l in after if l[:1] == "S"], version)
+    name = "_".join(s_ for s_, _ in want)
+    seq, ln = CH.spell(recs, version, want)
+    if name not in ainfo:
+        ctx.violation("merged-segment-missing", "expected a segment %r; segments now %r; document %r" % (name, sorted(ainfo), lines))
+        return
+    if ainfo[name][0] != seq:
+        ctx.violation("merged-sequence-wrong/single-reversed-path", "path %r: spelled %r, merged segment has %r\n document %r"
+                      % (want, seq, ainfo[name][0], lines))
+        return
+    gone = [s_ for s_, _ in want if s_ in ainfo]
+    if gone:
+        ctx.violation("chain-members-kept/single-reversed-path", "%r still defined after merging %r" % (gone, want))
+        return
+    ctx.nontriv(["single-reversed", lines])
+
+
 def run(case, ctx):
     version, lines = case["version"], case["lines"]
     recs = [S.parse_line(l, version) for l in lines]
@@ -172,6 +215,12 @@ def run(case, ctx):
         ctx.nontriv(lines)
     for f in case["feats"]:
         ctx.add("features", f)
+    if version == "gfa1" and len(repr(lines)) % 8 == 0 and not (case.get("opts") or {}):
+        # one path, turned round (in place, or through reversed()), merged on its own: the merged
+        # segment spells the chain in the direction it was given
+        cands = [p_ for p_ in lp.value if frozenset(se.name for se in p_) not in rings]
+        if cands:
+            return merge_one_reversed(ctx, g, prng.choice(cands), prng.random() < 0.5, recs, version, lines)
     before_text = {O.line_key(l): O.safe_str(l) for l in g.lines}
     in_chain = set(s for c in got for s, _ in c)
     opts = case.get("opts") or {}
